@@ -1,19 +1,23 @@
 /-
   C02 — equality is extensional; equal values are interchangeable.
 
-  Property theorems only (helper lemmas: Arrai/C02/Lemmas.lean; model: Arrai/C02/Model.lean).
+  Property theorems only (helper lemmas: Arrai/C02/{Assoc,Lemmas,Ctors}.lean; model: Arrai/C02/Model.lean).
 
   `Rep` has one constructor per Go value type, `den : Rep → V` is the denotation, `wf` the canonical-form
   invariant the Go constructors are supposed to establish, `Impl.equal` the transliteration of every `Equal`
-  method and `hashKey` the (symbolic) value of the repaired `Hash` methods — frozen identifies the elements
-  of a set by their full hash, so `Equal` on sets is decided by `hashKey`.
+  method and `hashG true`/`hashKey` the symbolic value of the (repaired) `Hash` methods.  frozen identifies
+  the elements of a set by their full hash (`Set.Equal` = same count and same XOR of element hashes), so
+  `Equal` of every set nested in a set is decided by `Hash`: the hash has to be *injective* up to
+  denotation, not only to respect `Equal`.
 
-  Full statements are kept as `def …_full : Prop`; what is proved is `…_partial` for the fragment
-  `frag` (numbers, the empty tuple, character and byte tuples, strings and byte arrays with offsets and
-  holes, booleans and generic sets of all these nested arbitrarily).  Arrays, non-empty generic tuples,
-  dictionaries, relations and union sets are covered by the correspondence run only.
+  Full statements are kept as `def …_full : Prop`; what is proved is `…_partial` for the fragment `frag`:
+  numbers, generic tuples, character/byte/item/entry tuples, strings and byte arrays (offsets, holes),
+  arrays (offsets, holes), booleans and generic sets of all these, nested arbitrarily — except that an
+  item or entry tuple may not be the *direct* child of a tuple, array or item/entry tuple (their hash
+  threads the seed).  Dictionaries, relations and union sets are covered by the correspondence run only.
 -/
 import Arrai.C02.Lemmas
+import Arrai.C02.Ctors
 
 namespace Arrai.C02.Theorems
 open Arrai Arrai.C02 Arrai.C02.Rep Arrai.C02.Impl
@@ -51,36 +55,42 @@ def hash_contract_full : Prop :=
   ∀ a b : Rep, wf a = true → wf b = true → equal a b = true → hashKey a = hashKey b
 
 theorem hash_contract_partial (a b : Rep) (ha : wf a = true) (hb : wf b = true)
-    (fa : frag a = true) (fb : frag b = true) (h : equal a b = true) : hashKey a = hashKey b := by
+    (fa : frag a = true) (fb : frag b = true) (pa : plain a = true) (pb : plain b = true)
+    (h : equal a b = true) : hashKey a = hashKey b := by
   have m := main_frag (depth a + depth b + 1) a b (by omega) (by omega) ha hb fa fb
-  exact (m.2 [] []).2 ⟨rfl, m.1.1 h⟩
+  exact (m.2 pa pb [] []).2 ⟨rfl, m.1.1 h⟩
 
 def hash_injective_full : Prop :=
   ∀ a b : Rep, wf a = true → wf b = true → hashKey a = hashKey b → den a = den b
 
 /-- different values have different (symbolic) hashes: what frozen's hash-trusting `Set.Equal` needs -/
 theorem hash_injective_partial (a b : Rep) (ha : wf a = true) (hb : wf b = true)
-    (fa : frag a = true) (fb : frag b = true) (h : hashKey a = hashKey b) : den a = den b :=
-  (((main_frag (depth a + depth b + 1) a b (by omega) (by omega) ha hb fa fb).2 [] []).1 h).2
+    (fa : frag a = true) (fb : frag b = true) (pa : plain a = true) (pb : plain b = true)
+    (h : hashKey a = hashKey b) : den a = den b :=
+  (((main_frag (depth a + depth b + 1) a b (by omega) (by omega) ha hb fa fb).2 pa pb [] []).1 h).2
 
 /-- under any seed (hashes are also used as seeds of the hashes of enclosing tuples and arrays) -/
 theorem hash_seeded_partial (a b : Rep) (ha : wf a = true) (hb : wf b = true)
-    (fa : frag a = true) (fb : frag b = true) (s s' : HV) :
+    (fa : frag a = true) (fb : frag b = true) (pa : plain a = true) (pb : plain b = true) (s s' : HV) :
     hashG true a s = hashG true b s' ↔ (s = s' ∧ den a = den b) :=
-  (main_frag (depth a + depth b + 1) a b (by omega) (by omega) ha hb fa fb).2 s s'
+  (main_frag (depth a + depth b + 1) a b (by omega) (by omega) ha hb fa fb).2 pa pb s s'
 
 /-! ### Part 3 — canonical forms are unique -/
 
-/-- same constructor, same scalar fields; collections up to enumeration order -/
+/-- same constructor, same scalar fields, same hole pattern; children and collections compared up to
+enumeration order and the representation of the children (by denotation) -/
 def sameRep : Rep → Rep → Prop
   | .num a, .num b => a = b
-  | .gtuple [], .gtuple [] => True
+  | .gtuple as, .gtuple bs => as.length = bs.length ∧ ∀ k, lookupV k (denAttrs as) = lookupV k (denAttrs bs)
   | .charT i c, .charT j d => i = j ∧ c = d
   | .byteT i c, .byteT j d => i = j ∧ c = d
+  | .itemT i x, .itemT j y => i = j ∧ den x = den y
+  | .entryT k v, .entryT k' v' => den k = den k' ∧ den v = den v'
   | .empty, .empty => True
   | .true_, .true_ => True
   | .str s o h, .str s' o' h' => s = s' ∧ o = o' ∧ h = h'
   | .bytes b o, .bytes b' o' => b = b' ∧ o = o'
+  | .array vs o c, .array vs' o' c' => o = o' ∧ c = c' ∧ denOpts vs = denOpts vs'
   | .generic xs, .generic ys =>
     xs.length = ys.length ∧ ∀ v, v ∈ denList xs ↔ v ∈ denList ys   -- a permutation up to member denotation
   | _, _ => False
@@ -93,9 +103,21 @@ theorem wf_unique_partial (a b : Rep) (ha : wf a = true) (hb : wf b = true)
   have htag : ctorTag a = ctorTag b := by rw [← vtag_den a ha fa, ← vtag_den b hb fb, h]
   cases a <;> cases b <;> simp [ctorTag] at htag <;> simp [frag] at fa fb
   case num.num x y => simpa [den, sameRep] using h
-  case gtuple.gtuple as bs => subst fa; subst fb; trivial
+  case gtuple.gtuple as bs =>
+    simp only [den] at h
+    have hl := (mkTup_eq_iff _ _).1 h
+    refine ⟨?_, hl⟩
+    simp only [wf, Bool.and_eq_true, decide_eq_true_eq] at ha hb
+    have l1 := length_mkAttrs (denAttrs as) (by rw [denAttrs_names]; exact ha.1.1)
+    have l2 := length_mkAttrs (denAttrs bs) (by rw [denAttrs_names]; exact hb.1.1)
+    rw [mkTup_eq, mkTup_eq] at h
+    have h' : mkAttrs (denAttrs as) = mkAttrs (denAttrs bs) := by simpa using h
+    rw [h', l2, denAttrs_length, denAttrs_length] at l1
+    exact l1.symm
   case charT.charT i c j d => simpa [den, vpair, sameRep] using h
   case byteT.byteT i c j d => simpa [den, vpair, sameRep] using h
+  case itemT.itemT i x j y => simpa [den, vpair, sameRep] using h
+  case entryT.entryT k v k' v' => simpa [den, vpair, sameRep] using h
   case empty.empty => trivial
   case true_.true_ => trivial
   case str.str s o h1 s' o' h2 =>
@@ -104,6 +126,11 @@ theorem wf_unique_partial (a b : Rep) (ha : wf a = true) (hb : wf b = true)
   case bytes.bytes b o b' o' =>
     obtain ⟨e1, e2⟩ := (bytes_den_inj b b' o o' ha hb).1 h
     exact ⟨e2, e1⟩
+  case array.array vs o c vs' o' c' =>
+    obtain ⟨e1, e2⟩ := (array_den_inj vs vs' o o' c c' ha hb).1 h
+    simp only [wf, Bool.and_eq_true, beq_iff_eq] at ha hb
+    refine ⟨e1, ?_, e2⟩
+    rw [ha.2, hb.2, ← optCount_denOpts vs, ← optCount_denOpts vs', e2]
   case generic.generic xs ys =>
     simp only [den, V.mkSet, V.set.injEq] at h
     have hm := (FinSet.mk_eq_iff _ _).1 h
@@ -119,10 +146,10 @@ def collapse_full : Prop :=
     dedupFrozen [x, y] = [x] ∧ ∀ v, dictGet (newDict [(x, v)]) y = [v]
 
 theorem collapse_partial (x y : Rep) (hx : wf x = true) (hy : wf y = true)
-    (fx : frag x = true) (fy : frag y = true) (h : den x = den y) :
+    (fx : frag x = true) (fy : frag y = true) (px : plain x = true) (py : plain y = true) (h : den x = den y) :
     dedupFrozen [x, y] = [x] ∧ ∀ v, dictGet (newDict [(x, v)]) y = [v] := by
   have he : equal x y = true := (equal_iff_den_partial x y hx hy fx fy).2 h
-  have hh : hashKey x = hashKey y := hash_contract_partial x y hx hy fx fy he
+  have hh : hashKey x = hashKey y := hash_contract_partial x y hx hy fx fy px py he
   constructor
   · simp [dedupFrozen, memFrozen, hh, he]
   · intro v
@@ -141,7 +168,45 @@ theorem no_collapse_partial (x y : Rep) (hx : wf x = true) (hy : wf y = true)
   · intro v
     simp [newDict, dictGet, he]
 
-/-! ### Part 5 — behaviour before the repairs (each witness is also a corpus case of the check) -/
+/-! ### Part 5 — the modelled constructors return canonical forms of the intended denotation
+(bounded-exhaustive: every input up to the stated size over the stated alphabet, evaluated by the kernel) -/
+
+def constructors_wf_full : Prop :=
+  ∀ n, strWithoutOk true n = true ∧ arrWithoutOk true n = true ∧ newOffsetArrayOk n = true ∧
+    newOffsetStringOk n = true ∧ newTupleOk n = true ∧ mergeOk n = true ∧ setBuilderOk n = true
+
+set_option maxRecDepth 1000000 in
+/-- `String.Without` (repaired): strings of length ≤ 3 over {hole, a, b}, two offsets, every index, both letters -/
+theorem string_without_wf_small : strWithoutOk true 3 = true := by decide
+
+set_option maxRecDepth 1000000 in
+/-- `Array.Without` (repaired): arrays of length ≤ 3 over {hole, 1, {}} -/
+theorem array_without_wf_small : arrWithoutOk true 3 = true := by decide
+
+set_option maxRecDepth 1000000 in
+/-- `NewOffsetArray` trims and counts -/
+theorem new_offset_array_wf_small : newOffsetArrayOk 3 = true := by decide
+
+set_option maxRecDepth 1000000 in
+theorem new_offset_string_wf_small : newOffsetStringOk 3 = true := by decide
+
+set_option maxRecDepth 1000000 in
+/-- `NewTuple`/`TupleBuilder.Finish` (repair #20) on ≤ 2 attributes over the sugar names -/
+theorem new_tuple_wf_small : newTupleOk 2 = true := by decide
+
+set_option maxRecDepth 1000000 in
+/-- `+>` (repaired) -/
+theorem merge_wf_small : mergeOk 1 = true := by decide
+
+set_option maxRecDepth 1000000 in
+/-- `NewSet` (bucket routing, asString/asArray/asBytes/NewDict, union of buckets) on ≤ 2 members -/
+theorem set_builder_wf_small : setBuilderOk 2 = true := by decide
+
+/-! ### Part 6 — behaviour before the repairs (each witness is also a corpus case of the check) -/
+
+set_option maxRecDepth 1000000 in
+/-- without the trim, `String.Without`/`Array.Without` break the invariant already on length ≤ 3 -/
+theorem without_false_before_repair : strWithoutOk false 3 = false ∧ arrWithoutOk false 3 = false := by decide
 
 /-- `+>` left a generic tuple with heading (@, @char): not canonical, and not `Equal` to the character tuple
 from the other side -/
@@ -182,6 +247,13 @@ theorem nested_set_hash_false_before_repair :
     equal (.generic [.generic [.num 1, .num 2], .generic [.num 3]])
           (.generic [.generic [.num 1, .num 3], .generic [.num 2]]) = false := by decide
 
+/-- the same regrouping inside arrays: `{[{1, 2}, {3}]} = {[{1, 3}, {2}]}` was true -/
+theorem nested_array_hash_false_before_repair :
+    equalOld (.generic [.array [some (.generic [.num 1, .num 2]), some (.generic [.num 3])] 0 2])
+             (.generic [.array [some (.generic [.num 1, .num 3]), some (.generic [.num 2])] 0 2]) = true ∧
+    equal (.generic [.array [some (.generic [.num 1, .num 2]), some (.generic [.num 3])] 0 2])
+          (.generic [.array [some (.generic [.num 1, .num 3]), some (.generic [.num 2])] 0 2]) = false := by decide
+
 /-- offset-blind string hash: `{'a'} = {1\'a'}` was true; `{'a'} = {<<97>>}` too -/
 theorem string_hash_false_before_repair :
     equalOld (.generic [.str [97] 0 0]) (.generic [.str [97] 1 0]) = true ∧
@@ -191,8 +263,9 @@ theorem string_hash_false_before_repair :
 
 /-! ### every hypothesis is satisfiable by non-trivial values -/
 
-example : let a : Rep := .generic [.generic [.num 1, .str [97, -1, 99] 2 1], .true_, .gtuple []]
-    wf a = true ∧ frag a = true := by decide
+example : let a : Rep := .generic [.generic [.num 1, .str [97, -1, 99] 2 1], .true_, .gtuple [],
+                                   .array [some (.gtuple [("a", .num 1), ("b", .bytes [7] 1)]), none, some .empty] (-1) 2]
+    wf a = true ∧ frag a = true ∧ plain a = true := by decide
 
 example : let a : Rep := .generic [.num 1, .bytes [1, 2] 3]
           let b : Rep := .generic [.bytes [1, 2] 3, .num 1]
